@@ -20,6 +20,8 @@ from .facts import (strip, strip_all_casts, strip_expect, walk, is_assign,
                     is_incdec, const_of, path_of, children)
 
 TRACKED_TYPES = ('struct uref *', 'struct ubuf *')
+# reference-counted arguments a provider call-back receives through va_arg (urequest.h: they belong to the callee)
+REF_TYPES = ('struct ubuf_mgr *', 'struct uref_mgr *', 'struct uclock *')
 
 O, C, K, N = 'O', 'C', 'K', 'N'
 
@@ -49,6 +51,9 @@ TABLE = {
     ('uref_block_append', 1): CONSUME_ON_OK,
     ('ubuf_block_insert', 2): CONSUME_ON_OK,
     ('uref_block_insert', 2): CONSUME_ON_OK,
+    ('ubuf_mgr_release', 0): CONSUME,
+    ('uref_mgr_release', 0): CONSUME,
+    ('uclock_release', 0): CONSUME,
     ('uqueue_push', 1): COND_TRUE,
     ('ulist_add', 1): KEEP,
     ('ulist_unshift', 1): KEEP,
@@ -193,8 +198,10 @@ def cond_key_expr(n):
 
 
 class Own:
-    def __init__(self, prog, input_fns=None, contracts=None):
+    def __init__(self, prog, input_fns=None, contracts=None, tracked=TRACKED_TYPES, va_owned=False):
         self.prog = prog
+        self.tracked = tuple(tracked)
+        self.va_owned = va_owned     # va_arg of a tracked type yields an owned object (provider call-backs)
         self.summ = {}
         self.inprog = set()
         self.input_fns = input_fns or {}   # unit name -> set of function names in upipe_input slots
@@ -204,7 +211,7 @@ class Own:
     # ---- callee classification -----------------------------------------
     def is_producer(self, unit, name, callnode):
         t = callnode.get('t')
-        if t not in TRACKED_TYPES:
+        if t not in self.tracked:
             return None
         if name in NOT_PRODUCERS or name in ALIAS_FNS:
             return None
@@ -253,7 +260,7 @@ class Own:
             return 'escape'
         if fn.unit is self.prog.hdr and not fn.macro and (fn.file or '').startswith('include/upipe/'):
             return BORROW       # core header API: TABLE or borrow (cross-checked in the evidence)
-        if idx >= len(fn.params) or fn.params[idx]['t'] not in TRACKED_TYPES:
+        if idx >= len(fn.params) or fn.params[idx]['t'] not in self.tracked:
             return BORROW
         return self.summary(fn.unit, fn, idx)
 
@@ -307,12 +314,12 @@ class _Explorer:
         self.exit_how = []
         self.ptrvars = set()
         for p in fn.params:
-            if p['t'] in TRACKED_TYPES:
+            if p['t'] in own.tracked:
                 self.ptrvars.add(p['n'])
         for bid, s, x in fn.nodes():
             if x.get('k') == 'decl':
                 for v in x['vars']:
-                    if v['t'] in TRACKED_TYPES or v['t'] == 'struct uchain *':
+                    if v['t'] in own.tracked or v['t'] == 'struct uchain *':
                         self.ptrvars.add(v['n'])
         self.ldefs = fn.local_defs()
         self.objnames = {}
@@ -678,7 +685,7 @@ class _Explorer:
             return a['n'] in self.ptrvars
         if a.get('k') == 'call' and a.get('fn') in ALIAS_FNS:
             return self.arg_obj_static(a['args'][ALIAS_FNS[a['fn']]])
-        if a.get('k') == 'call' and a.get('t') in TRACKED_TYPES:
+        if a.get('k') == 'call' and a.get('t') in self.own.tracked:
             return True
         if a.get('k') == 'un' and a.get('op') == '&' and 'e' in a:
             m = strip_all_casts(a['e'])
@@ -825,6 +832,11 @@ class _Explorer:
             return v
         if k == 'int':
             return 'NULL' if n.get('v') == 0 else None
+        if k == 'va_arg' and self.own.va_owned and n.get('t') in self.own.tracked:
+            oid = 'V%s' % n.get('i')
+            self.objnames[oid] = 'va_arg(%s)' % n.get('t')
+            env.objs[oid] = O
+            return oid
         for c in children(n):
             self.eval(c, env)
         return None
